@@ -13,6 +13,8 @@ Next == \/ tw < MaxT /\ tw' = tw + 1 /\ UNCHANGED <<dim, ow, oh, th, stage>>
         \/ th < MaxT /\ th' = th + 1 /\ UNCHANGED <<dim, ow, oh, tw, stage>>
 Spec == Init /\ [][Next]_vars
 S == Src(dim, ow, oh)
+\* the closed form of the largest fitting factor equals its definition as a maximum
+FactorClosedForm == Factor(dim, ow, oh, tw, th) = FactorSet(dim, ow, oh, tw, th)
 FailsExactlyWhenTooSmall == AlgoFails(S, tw, th) <=> MustFail(dim, ow, oh, tw, th)
 PictureAllowed == ~AlgoFails(S, tw, th) => IsScaled(S, tw, th, Fill, AlgoPicture(S, tw, th, Fill))
 \* scaling a scaled picture again (with another fill) is again a correct scaling of the intermediate picture
